@@ -251,13 +251,15 @@ theorem gSem_ids {g : Graph} (c : Clauses g) : ∀ p ∈ (gSem g).pops, 1 ≤ p.
   simp [gPopOf, pidOf]
 
 /-- **graph → ms → graph** on valid ms-expressible graphs of constant sizes with exact ancestry
-proportions, when `from_ms` accepts the printed command and the command lies in `Tame'`. -/
-theorem ms_roundtrip_sem_partial (c : NumCodec) (sa : Growth → String) {g : Graph} (hv : validGraph g = true)
+proportions, when `from_ms` accepts the printed command and C08 applies to it (`hag`: for the plain command
+line, the graph `from_ms` returns and the ms interpreter agree — proved in C08 on the fragments `Tame'`, `Tame3`). -/
+theorem ms_roundtrip_sem_of_agree (c : NumCodec) (sa : Growth → String) {g : Graph} (hv : validGraph g = true)
     (hx : MsExpressible g = true) (hex : ExactProportions g = true) (hcs : ConstSizes g = true)
     {N0 : Q} (hN : 0 < N0) {samples : Option (List Int)} (hs : samplesOk g samples = true)
     {toks : List (Tok Growth)} (htoks : toMs g N0 samples = .ok toks) (hc : CodecCovers c toks)
     {mg : MsGraph} (hfrom : fromMs (renderG c sa toks) N0 none = .ok mg)
-    {pr : Demes.Spec.MsSem.Parsed} (hpr : parse (renderG c sa toks) = .ok pr) (ht : Tame' pr = true) :
+    (hag : ∀ sem, msSem (renderG c sa toks) N0 = .ok sem → PlainTokens (renderG c sa toks) = true →
+      SemAgree (msSem (renderG c sa toks) N0) (resultSem mg) = true) :
     ∃ sem rs gs, msSem (renderG c sa toks) N0 = .ok sem ∧ resultSem mg = .ok rs
       ∧ graphSem (inGenerations g) none = .ok gs
       ∧ semEquiv sem rs = true ∧ SemRefines sem gs ∧ SemRefines rs gs := by
@@ -279,7 +281,7 @@ theorem ms_roundtrip_sem_partial (c : NumCodec) (sa : Growth → String) {g : Gr
   have hrefA : SemRefines (embedSem semG) gs :=
     semRefines_embed semG gs h5 hwf hchron hdim htiles (by rw [hgs]; exact gSem_ids cl)
   -- C08
-  have hagree := fromMs_sem_plain hfrom hsem b3 hpr ht
+  have hagree := hag _ hsem b3
   rw [hsem] at hagree
   cases hrs : resultSem mg with
   | error e => rw [hrs] at hagree; simp [SemAgree] at hagree
@@ -295,6 +297,20 @@ theorem ms_roundtrip_sem_partial (c : NumCodec) (sa : Growth → String) {g : Gr
       (Tr.graphSem_tiles (Demes.Proofs.FromMs.fromMs_valid hfrom)
         (show graphSemWith mg.size mg.graph _ = .ok rs from hrs) p hp).1
     exact ⟨embedSem semG, rs, gs, hsem, rfl, h4, heq, hrefA, semRefines_of_equiv heq hrefA hA hB⟩
+
+/-- **graph → ms → graph** on valid ms-expressible graphs of constant sizes with exact ancestry
+proportions, when `from_ms` accepts the printed command and the command lies in `Tame'`. -/
+theorem ms_roundtrip_sem_partial (c : NumCodec) (sa : Growth → String) {g : Graph} (hv : validGraph g = true)
+    (hx : MsExpressible g = true) (hex : ExactProportions g = true) (hcs : ConstSizes g = true)
+    {N0 : Q} (hN : 0 < N0) {samples : Option (List Int)} (hs : samplesOk g samples = true)
+    {toks : List (Tok Growth)} (htoks : toMs g N0 samples = .ok toks) (hc : CodecCovers c toks)
+    {mg : MsGraph} (hfrom : fromMs (renderG c sa toks) N0 none = .ok mg)
+    {pr : Demes.Spec.MsSem.Parsed} (hpr : parse (renderG c sa toks) = .ok pr) (ht : Tame' pr = true) :
+    ∃ sem rs gs, msSem (renderG c sa toks) N0 = .ok sem ∧ resultSem mg = .ok rs
+      ∧ graphSem (inGenerations g) none = .ok gs
+      ∧ semEquiv sem rs = true ∧ SemRefines sem gs ∧ SemRefines rs gs :=
+  ms_roundtrip_sem_of_agree c sa hv hx hex hcs hN hs htoks hc hfrom
+    (fun _ hsem hpl => fromMs_sem_plain hfrom hsem hpl hpr ht)
 
 /-! ### stage 3: `Tame'` from a condition on the graph -/
 
